@@ -1,0 +1,50 @@
+//go:build verif
+
+package inmemory
+
+import (
+	"github.com/ngicks/gokugen/def"
+	sortabletask "github.com/ngicks/gokugen/internal/sortable_task"
+	"github.com/ngicks/mockable"
+)
+
+// VerifHeapEntry is one slot of the internal heap as seen by the verification harness.
+type VerifHeapEntry struct {
+	Id             string
+	Index          int
+	InsertionOrder uint64
+}
+
+// VerifSetClock swaps the clock. Verification builds only.
+func (r *InMemoryRepository) VerifSetClock(c mockable.Clock) {
+	r.mu.Lock()
+	defer r.mu.Unlock()
+	r.clock = c
+}
+
+// VerifSetRandStrGen swaps the id source. Verification builds only.
+func (r *InMemoryRepository) VerifSetRandStrGen(g def.RandStrGen) {
+	r.mu.Lock()
+	defer r.mu.Unlock()
+	r.randStrGen = g
+}
+
+// VerifHeapSnapshot returns the heap array in array order and,
+// for every stored task in insertion order, its (Id, Index, InsertionOrder).
+func (r *InMemoryRepository) VerifHeapSnapshot() (heap []VerifHeapEntry, all []VerifHeapEntry) {
+	r.mu.Lock()
+	defer r.mu.Unlock()
+	cloned := r.heap.Clone()
+	cloned.Filter(func(inner *[]*sortabletask.IndexedTask) {
+		for _, t := range *inner {
+			heap = append(heap, VerifHeapEntry{Id: t.Task.Id, Index: t.Index, InsertionOrder: t.InsertionOrder})
+		}
+		// leave the clone empty so that the trailing heap.Init of Filter
+		// swaps nothing and the shared *IndexedTask values stay untouched.
+		*inner = (*inner)[:0]
+	})
+	for pair := r.orderedMap.Oldest(); pair != nil; pair = pair.Next() {
+		all = append(all, VerifHeapEntry{Id: pair.Key, Index: pair.Value.Index, InsertionOrder: pair.Value.InsertionOrder})
+	}
+	return heap, all
+}
